@@ -73,7 +73,7 @@ def plan(tier):
 def setup_worker(ctx):
     warnings.simplefilter('ignore')
     ctx.state['reach'] = Reach(REACH).start()
-    ctx.state['inv'] = CIMIntInvariant().start()
+    ctx.state['inv'] = CIMIntInvariant(ctx).start()
     fconn, info = simplerepo.build(random.Random(11), n_inst=3,
                                    namespaces=simplerepo.NAMESPACES)
     ctx.state['fconn'] = fconn
